@@ -342,18 +342,28 @@ def truthiness(ck, F):
                    "number truthiness is %s" % (got.get("Number"),), b.span)
     fb = get_fn(ck, F, "Value::from_bool")
     if fb is not None:
-        ft = None
         vals = {}
         for r in path_records(fb):
             bv = None
             for (txt, ps, val, subj) in r["decisions"]:
                 if ps == frozenset([0]) and isinstance(val, bool):
                     bv = val
-            for c in r["calls"]:
-                if "From<f64>>::from" in c.callee:
-                    e = strip_expr(fb.expr(c.args[0]))
-                    if e[0] == "const":
-                        vals[bv] = e[1].get("float")
+            floats = set()
+            for bb in r["path"]:
+                for st in fb.blocks[bb]["stmts"]:
+                    if st["k"] == "assign":
+                        rv = st["rv"]
+                        ops = [rv.get("op")] if rv["k"] == "use" else rv.get("ops", [])
+                        for o in ops:
+                            if isinstance(o, dict) and o.get("k") == "const" and "float" in o:
+                                floats.add(o["float"])
+                c = fb.call_at(bb)
+                if c is not None:
+                    for a_ in c.args:
+                        if a_.get("k") == "const" and "float" in a_:
+                            floats.add(a_["float"])
+            if bv is not None and len(floats) == 1:
+                vals[bv] = next(iter(floats))
         ck.require(vals == {True: "1.0", False: "0.0"}, "C02:BOOL:from_bool", "boolean encoding", "true -> 1.0, false -> 0.0",
                    "from_bool encodes %s" % vals, fb.span)
 
